@@ -117,6 +117,7 @@ typedef void (*workfn)(long lo, long hi, struct res *r, void *arg);
 void par_run(long n, workfn f, void *arg, struct res *tot);
 extern int G_workers;
 extern time_t E_libc_time_value;
+extern unsigned E_create_high_bits;
 extern double G_deadline;       /* absolute monotonic seconds; 0 = none */
 double now_s(void);
 int past_deadline(void);
